@@ -15,6 +15,7 @@
 """ Majority gate """
 
 from itertools import combinations
+from math import comb as binomial
 import numpy as np
 
 
@@ -22,18 +23,14 @@ def operate(circuit, controls, target):
     """Apply a majority gate"""
 
     size_controls = len(controls)
-    log_n = int(np.floor(np.log2(size_controls)))
 
     n_min = int(np.ceil(size_controls / 2))
-    n_max = 2**log_n
 
-    n_controls = [n_min]
-
-    if n_min != n_max:
-        if n_min % 2 != 0:
-            n_controls.extend(range(n_min + 1, n_max))
-
-        n_controls.append(n_max)
+    # Threshold function "at least n_min ones" as a GF(2) sum of elementary symmetric
+    # polynomials: the subsets of size k enter iff binomial(k-1, n_min-1) is odd.
+    n_controls = [
+        k for k in range(n_min, size_controls + 1) if binomial(k - 1, n_min - 1) % 2 == 1
+    ]
 
     for k in n_controls:
         comb = combinations(controls, k)
